@@ -111,7 +111,10 @@ Print Assumptions C07_add_import_counts.
 
 (* F20 decided by the model: with per-entry generations the delayed Shutdown of an old client
    deletes the re-created entry of a live client (wrong Release, then a nil dereference); with
-   generations drawn from one counter a re-created client never shares its generation *)
+   generations drawn from one counter a re-created client never shares its generation ;
+   the premise "every entry's generation is at most the counter" holds initially (no entries) and
+   is preserved by addImport (first conjunct of the conclusion); it is NOT threaded through whole
+   histories as an invariant here (the other handlers do not touch i_gen or s_impgen) *)
 Theorem C07_generation_fresh : forall i s,
   (forall j e, aget j (s_imp s) = Some e -> i_gen e <= s_impgen s) ->
   let '(s1, x) := add_import cfg_fixed i s in
@@ -124,6 +127,7 @@ Proof. exact add_import_fresh_generation. Qed.
 Print Assumptions C07_generation_fresh.
 Theorem C07_F20_refuted : outcome without20 h20 = W_F20 /\ outcome cfg_fixed h20 = 0.
 Proof. exact F20_refuted. Qed.
+Print Assumptions C07_F20_refuted.
 
 (* Close from any state succeeds and leaves all tables empty (questions, answers, exports,
    imports, embargoes, queue); the reference counters: C07_close_releases_all above *)
